@@ -5,13 +5,24 @@
 JOBS = [
     # ---- playback/tape_recorder.py: decorator wrappers and play
     dict(job=('specs.tr_units', 'w_in_playback', {}), props=['C01', 'C02', 'C09'], cases='w_in'),
-    dict(job=('specs.tr_units', 'w_in_recording', {}), props=['C01', 'C04', 'C05', 'C09'], cases='w_in'),
+    dict(job=('specs.tr_units', 'w_in_recording', {}), props=['C01', 'C02', 'C04', 'C05', 'C09'], cases='w_in'),
     dict(job=('specs.tr_units', 'w_out', {'mode': 'playback'}), props=['C01', 'C02', 'C03', 'C09'], cases='w_out'),
-    dict(job=('specs.tr_units', 'w_out', {'mode': 'recording'}), props=['C01', 'C03', 'C04', 'C05', 'C09'], cases='w_out'),
+    dict(job=('specs.tr_units', 'w_out', {'mode': 'recording'}), props=['C01', 'C02', 'C03', 'C04', 'C05', 'C09'], cases='w_out'),
     dict(job=('specs.tr_units', 'w_op_recording', {}), props=['C04', 'C05', 'C09', 'C17', 'C18'], cases='w_op'),
     dict(job=('specs.tr_units', 'w_op_passthrough', {'mode': 'disabled'}), props=['C04']),
     dict(job=('specs.tr_units', 'w_op_playback', {}), props=['C01', 'C02', 'C03']),
     dict(job=('specs.tr_units', 'play', {}), props=['C01', 'C02', 'C03', 'C09']),
+    # ---- small public / helper methods of the recorder (function-level contracts, every state under the class invariant)
+    dict(job=('specs.tr_small', 'discard_recording', {}), props=['C04', 'C05', 'C09', 'C17']),
+    dict(job=('specs.tr_small', 'force_sample_recording', {}), props=['C04', 'C09', 'C17']),
+    dict(job=('specs.tr_small', 'should_sample', {}), props=['C17']),
+    dict(job=('specs.tr_small', 'record_data', {}), props=['C04', 'C05', 'C09']),
+    dict(job=('specs.tr_small', 'play_data', {}), props=['C02', 'C09', 'C11']),
+    dict(job=('specs.tr_small', 'reset_active_recording', {}), props=['C05', 'C09', 'C17']),
+    # ---- key functions
+    dict(job=('specs.keys', 'input_key', {}), props=['C06']),
+    dict(job=('specs.keys', 'output_key', {}), props=['C03', 'C06']),
+    dict(job=('specs.keys', 'format_alias', {}), props=['C06']),
     # ---- playback/tape_cassette.py: metadata filter matching
     dict(job=('specs.matcher', 'match_value', {}), props=['C14']),
     dict(job=('specs.matcher', 'match_all', {}), props=['C14']),
@@ -24,6 +35,14 @@ CASES = {
     'w_out': [{'dh': a, 'static': b} for a in ('none', 'some') for b in ('yes', 'no')],
     'w_op': [{'ext': a, 'clsfn': b} for a in ('none', 'some') for b in ('yes', 'no')],
 }
+
+
+def extra_for(prop, tier, seed):
+    out = []
+    if prop in ('C03', 'C06', 'C18', 'C05'):
+        from specs import keys
+        out.append(lambda: (lambda r: dict(r, results=[x for x in r['results'] if x['prop'] == prop]))(keys.lemmas()))
+    return out
 
 
 def jobs_for(prop):
@@ -68,4 +87,8 @@ CLAIMS['C14'] = dict(text='Totality (raises: never) and the documented meaning (
                           "unit's own contract) discharged on the real _match_metadata_value / _operator_filter for all JSON-typed filters and values; "
                           'loop invariant for match_against_recorded_metadata.',
                      note=TB + 'fnmatch assumed total on str x str (A10); ordering between two containers left open.')
+CLAIMS['C06'] = dict(text='Contract of the real _input_interception_key (result = template over alias and the captured values selected by capture_args, '
+                          'loop invariant over capture_args with the selection rule as step equations, frame: modifies nothing) and of '
+                          '_output_interception_key / _format_alias; injectivity lemmas over the key templates decided by cvc5.',
+                     note=TB + 'jsonpickle.encode as a function of structural value is assumed (A1); its hash-seed dependence for sets is a recorded known finding.')
 NOT_APPLICABLE = {}
